@@ -23,9 +23,71 @@ type c23Case struct {
 	Array bool   `json:"array"`
 }
 
-var c23IFS = []c22IFSVal{{Unset: true}, {Val: ""}, {Val: " "}, {Val: ":"}, {Val: ": "}, {Val: " \t\n"}}
+// c23IFS: the first c23NMainIFS values (all ASCII) are crossed with the main
+// line enumeration; the wide enumeration uses the values listed in c23WideIFS.
+var c23IFS = []c22IFSVal{{Unset: true}, {Val: ""}, {Val: " "}, {Val: ":"}, {Val: ": "}, {Val: " \t\n"},
+	{Val: "é"}, {Val: "é "}, {Val: "Ġ:"}}
+
+const c23NMainIFS = 6
 
 var c23Symbols = []string{"a", "b", " ", "\t", ":", `\`, "\\\n"}
+
+// The wide enumeration: byte/rune confusion in the IFS membership test. Next
+// to a small ASCII core the line alphabet holds non-ASCII characters of every
+// UTF-8 length whose code point, cut to its low byte (or low 16 bits),
+// collides with an IFS byte, and characters related to the multi-byte IFS
+// values:
+//
+//	† U+2020  (3 bytes) low byte 0x20 = space
+//	Ġ U+0120  (2 bytes) low byte 0x20 = space; itself a member of IFS="Ġ:"
+//	ĉ U+0109  (2 bytes) low byte 0x09 = tab
+//	Ċ U+010A  (2 bytes) low byte 0x0A = newline
+//	ĺ U+013A  (2 bytes) low byte 0x3A = ':'
+//	é U+00E9  (2 bytes, C3 A9) a member of IFS="é" and IFS="é "
+//	Ã U+00C3  (2 bytes, C3 83) code point = first UTF-8 byte of é, shares that byte
+//	𐀠 U+10020 (4 bytes) low byte and low 16 bits 0x20 = space
+//
+// and the IFS values are the ASCII ones the low bytes collide with (unset =
+// space/tab/newline, ":", ": ") plus three holding a multi-byte character
+// (alone, next to IFS whitespace, and one whose low byte is a space next to
+// an ASCII delimiter).
+var c23WideSymbols = []string{"a", " ", ":", `\`, "†", "Ġ", "ĉ", "Ċ", "ĺ", "é", "Ã", "𐀠"}
+
+var c23WideIFS = []int{0, 3, 4, 6, 7, 8}
+
+// c23ImageChars are ASCII characters that occur in no line alphabet and mean
+// nothing to read; see c23Image.
+const c23ImageChars = ";%"
+
+// c23Image returns, for an IFS value holding non-ASCII characters, the
+// bijective renaming of those characters to unused ASCII characters (fwd) and
+// its inverse (back); nil, nil for an ASCII IFS. bash 5.2 is not
+// self-consistent for multi-byte IFS characters (see c.Assumptions), so such
+// cases are judged against bash run on the renamed case.
+func c23Image(ifs string) (fwd, back *strings.Replacer) {
+	var f, b []string
+	for _, r := range ifs {
+		if r < 0x80 || strings.ContainsRune(strings.Join(f, ""), r) {
+			continue
+		}
+		img := string(c23ImageChars[len(f)/2])
+		f = append(f, string(r), img)
+		b = append(b, img, string(r))
+	}
+	if f == nil {
+		return nil, nil
+	}
+	return strings.NewReplacer(f...), strings.NewReplacer(b...)
+}
+
+func c23IsASCII(s string) bool {
+	for i := 0; i < len(s); i++ {
+		if s[i] >= 0x80 {
+			return false
+		}
+	}
+	return true
+}
 
 var c23Names = []string{"a", "b", "c"}
 
@@ -126,22 +188,42 @@ func c23RenderValues(status int, t c23Case, vals []string) string {
 
 func c23(c *vc.Ctx) {
 	maxLen := vc.Pick(c, 5, 6)
-	c.Rule = fmt.Sprintf("every text of <=%d symbols over %q (the last one, backslash-newline, is one symbol) fed with `<<< \"$line\"` (which appends a newline) x IFS in {unset,\"\",\" \",\":\",\": \",\" \\t\\n\"} x {read, read a, read a b, read a b c, read -a arr} x {-r, no -r}. Compared: exit status of read and the value (or unset-ness) of every named variable / REPLY / all array elements, interpreter (fresh Runner) vs bash 5.2 (no-fork eval); for >=1 name and for -a also expand.ReadFields(cfg{IFS}, logical line, n or -1, raw) padded with empty strings vs bash. distinct = distinct (status, values) outcomes", maxLen, c23Symbols)
+	wideLen := vc.Pick(c, 3, 4)
+	var wideIFS []string
+	for _, i := range c23WideIFS {
+		wideIFS = append(wideIFS, c23Case{IFS: i}.ifsString())
+	}
+	c.Rule = fmt.Sprintf("(main) every text of <=%d symbols over %q (the last one, backslash-newline, is one symbol) x IFS in {unset,\"\",\" \",\":\",\": \",\" \\t\\n\"}; (wide: byte/rune confusion) every text of <=%d symbols over %q (non-ASCII characters of 2, 3 and 4 UTF-8 bytes whose code point cut to 8 or 16 bits is space, tab, newline or ':', members of the multi-byte IFS values, and U+00C3 = first UTF-8 byte of é) x IFS in {%s}, minus the cases already in (main). Each text is fed with `<<< \"$line\"` (which appends a newline) x {read, read a, read a b, read a b c, read -a arr} x {-r, no -r}. Compared: exit status of read and the value (or unset-ness) of every named variable / REPLY / all array elements, interpreter (fresh Runner) vs bash 5.2 (no-fork eval); for >=1 name and for -a also expand.ReadFields(cfg{IFS}, logical line, n or -1, raw) padded with empty strings vs bash. For the IFS values holding a non-ASCII character bash is run on the image of the case under the bijective renaming of that character to an unused ASCII character (é->';', Ġ->';') and its result renamed back. distinct = distinct (status, values) outcomes", maxLen, c23Symbols, wideLen, c23WideSymbols, strings.Join(wideIFS, ","))
 	c.Assumptions = []string{
 		"bash 5.2.15 (LC_ALL=C.utf8) is the oracle for read",
 		"expand.ReadFields is given the logical line computed by a 15-line model of read's line gathering (continuations removed, stop at the first unprotected newline); the builtin itself is compared end-to-end without that model",
+		"bash's read depends on an IFS character only through its class (IFS whitespace / other IFS character / not in IFS). bash 5.2.15 itself breaks this for multi-byte IFS characters (IFS='é ' read -a arr <<< ' a é b ' gives 3 fields where IFS='; ' with ' a ; b ' gives 2; IFS='é ' read a b <<< 'a\\éb' stores the invalid byte sequence 'a\\303'), so for those IFS values the expected result is bash's on the ASCII image of the case; how often bash on the original case differs from that is counted (multibyte_ifs_bash_differs_from_its_ascii_image) and never decides a verdict",
 	}
 	c.Reruns = 1
 
+	emitLine := func(emit func(c23Case), line string, ifs int) {
+		for _, raw := range []bool{false, true} {
+			for n := 0; n <= 3; n++ {
+				emit(c23Case{Line: line, IFS: ifs, Names: n, Raw: raw})
+			}
+			emit(c23Case{Line: line, IFS: ifs, Raw: raw, Array: true})
+		}
+	}
 	complete := vc.RunBatch(c, 3000, func(emit func(c23Case)) {
-		enum.Strings(c23Symbols, maxLen, func(line string) {
-			for ifs := range c23IFS {
-				for _, raw := range []bool{false, true} {
-					for n := 0; n <= 3; n++ {
-						emit(c23Case{Line: line, IFS: ifs, Names: n, Raw: raw})
-					}
-					emit(c23Case{Line: line, IFS: ifs, Raw: raw, Array: true})
+		// the wide part first: it is the smaller one, so a budget-limited run
+		// still covers it completely
+		enum.Strings(c23WideSymbols, wideLen, func(line string) {
+			ascii := c23IsASCII(line)
+			for _, ifs := range c23WideIFS {
+				if ascii && ifs < c23NMainIFS {
+					continue // in the main part (core symbols and wideLen are within its bounds)
 				}
+				emitLine(emit, line, ifs)
+			}
+		})
+		enum.Strings(c23Symbols, maxLen, func(line string) {
+			for ifs := 0; ifs < c23NMainIFS; ifs++ {
+				emitLine(emit, line, ifs)
 			}
 		})
 	}, func(batch []c23Case) []*vc.Fail {
@@ -149,17 +231,39 @@ func c23(c *vc.Ctx) {
 		type src struct {
 			i    int
 			what string
+			back *strings.Replacer // non-nil: the case was run on its ASCII image
+			real bool              // bash on the original of an imaged case: informational
 		}
 		var cases []oracle.EvalCase
 		var srcs []src
+		// add queues one comparison of want (what mvdan/sh produced) with bash
+		add := func(i int, what, bcode, want string, fwd, back *strings.Replacer) {
+			if fwd != nil {
+				bcode, want = fwd.Replace(bcode), fwd.Replace(want)
+			}
+			cases = append(cases, oracle.EvalCase{Code: bcode, Want: want})
+			srcs = append(srcs, src{i: i, what: what, back: back})
+		}
 		for i, t := range batch {
 			code := t.code()
 			want := c2xRun(nil, code+t.render(false)+"\n", nil)
 			c.Distinct(want)
 			bcode := code + t.render(true)
-			cases = append(cases, oracle.EvalCase{Code: bcode, Want: want})
-			srcs = append(srcs, src{i, "interp"})
-			if len(t.Line) >= maxLen && t.IFS == 4 && t.Names == 2 {
+			fwd, back := c23Image(c23IFS[t.IFS].Val)
+			wide := !c23IsASCII(t.Line) || fwd != nil
+			if wide {
+				c.Count("wide_cases", 1)
+			}
+			add(i, "interp", bcode, want, fwd, back)
+			if fwd != nil {
+				c.Count("multibyte_ifs_cases_judged_by_bash_on_ascii_image", 1)
+				cases = append(cases, oracle.EvalCase{Code: bcode, Want: want})
+				srcs = append(srcs, src{i: i, what: "interp", real: true})
+			}
+			if len(t.Line) >= maxLen && t.IFS == 4 && t.Names == 2 && !wide {
+				c.Sample(map[string]any{"line": t.Line, "ifs": t.ifsString(), "cmd": t.readCmd(), "interp": want})
+			}
+			if wide && len([]rune(t.Line)) >= wideLen && t.Names == 2 && !t.Raw && strings.HasPrefix(t.Line, "a") && strings.HasSuffix(t.Line, "a") {
 				c.Sample(map[string]any{"line": t.Line, "ifs": t.ifsString(), "cmd": t.readCmd(), "interp": want})
 			}
 			if t.Names >= 1 || t.Array {
@@ -191,8 +295,7 @@ func c23(c *vc.Ctx) {
 				}
 				fw := c23RenderValues(status, t, vals)
 				if fw != want {
-					cases = append(cases, oracle.EvalCase{Code: bcode, Want: fw})
-					srcs = append(srcs, src{i, "expand.ReadFields"})
+					add(i, "expand.ReadFields", bcode, fw, fwd, back)
 				}
 			}
 		}
@@ -200,13 +303,42 @@ func c23(c *vc.Ctx) {
 		if err != nil {
 			panic(err)
 		}
+		// what bash says about the original of an imaged case, when that is
+		// not what the interpreter gave
+		realGot := map[int]string{}
+		imageGot := map[int]string{}
 		for _, d := range diffs {
 			s := srcs[d.Index]
+			switch {
+			case s.real:
+				realGot[s.i] = d.Got
+			case s.back != nil && s.what == "interp":
+				imageGot[s.i] = s.back.Replace(d.Got)
+			}
+		}
+		for i, t := range batch {
+			if fwd, _ := c23Image(c23IFS[t.IFS].Val); fwd == nil {
+				continue
+			}
+			// both absent = both equal to the interpreter's result
+			if r, rok := realGot[i]; rok != (imageGot[i] != "") || r != imageGot[i] {
+				c.Count("multibyte_ifs_bash_differs_from_its_ascii_image", 1)
+			}
+		}
+		for _, d := range diffs {
+			s := srcs[d.Index]
+			if s.real {
+				continue
+			}
 			t := batch[s.i]
-			sh := cases[d.Index].Want
+			sh, got, oracleName := cases[d.Index].Want, d.Got, "bash"
+			if s.back != nil {
+				sh, got = s.back.Replace(sh), s.back.Replace(got)
+				oracleName = "bash on the ASCII image"
+			}
 			f := &vc.Fail{
-				Key:   fmt.Sprintf("IFS=%s line=%q %s: %s=%q bash=%q", t.ifsString(), t.Line, t.readCmd(), s.what, sh, d.Got),
-				Msg:   fmt.Sprintf("IFS=%s; %s <<< %q: %s gives status|values %q, bash %q", t.ifsString(), t.readCmd(), t.Line, s.what, sh, d.Got),
+				Key:   fmt.Sprintf("IFS=%s line=%q %s: %s=%q bash=%q", t.ifsString(), t.Line, t.readCmd(), s.what, sh, got),
+				Msg:   fmt.Sprintf("IFS=%s; %s <<< %q: %s gives status|values %q, %s %q", t.ifsString(), t.readCmd(), t.Line, s.what, sh, oracleName, got),
 				Class: c23Class(t, sh),
 			}
 			switch {
